@@ -114,6 +114,20 @@ def r2_replace_all(ctx):
     if not fns:
         r.anchor_missing("impls of EventLog::replace_all_events")
         return
+    # EventLog::clear itself: storage erased and tree reset, in every implementation
+    for cf in log_impl_methods(ws, "clear"):
+        cb = cfg.code_body(ws, cf)
+        if is_delegate(cb, "clear"):
+            continue
+        names = {cname(t) for _i, t in idioms.real_calls(cb)}
+        erases = bool(names & {"truncate", "delete_all_events", "set_len", "conn_mut"})
+        resets = any(s_.get("d") and "tree" in cfg.place_fields(s_["d"]) and s_.get("k") not in ("ref", "refmut")
+                     for blk in cb.blocks for s_ in blk["s"])
+        k = cf.root + "|clear-erases-and-resets"
+        if erases and resets:
+            r.ok(k, cfg.loc(cb), "clear erases the storage and replaces the commit tree", work=len(cb.blocks))
+        else:
+            r.violation(k, cfg.loc(cb), "EventLog::clear %s" % ("does not reset the in-memory commit tree" if erases else "does not erase the storage"), work=len(cb.blocks))
     # the restoring helper of the file-system log: the snapshot file is moved
     # back first, and only then the in-memory tree is rebuilt from the file
     for rf in ws.find_fns(r"FileSystemEventLog::<.*>::try_rollback_snapshot$"):
@@ -183,10 +197,26 @@ def r2_replace_all(ctx):
         # a `clear` that is not followed by re-applying records puts an
         # initially empty log (no snapshot) back into its previous state
         applies = [i for i, t in idioms.real_calls(body, live) if cname(t) in ("patch_unchecked", "apply_records", "apply", "insert_records")]
+        def resets_tree_after(di_):
+            after = cfg.reach_after(body, di_, cut_edges=infeasible) | {di_}
+            for j in after:
+                for s_ in body.blocks[j]["s"]:
+                    d_ = s_.get("d")
+                    if d_ and "tree" in cfg.place_fields(d_) and s_.get("k") not in ("ref", "refmut"):
+                        return True
+            return False
         for (di, dt, dn) in list(destructive):
             if dn in DESTRUCTIVE and not any(a in cfg.reach_after(body, di, cut_edges=infeasible) for a in applies):
-                restorers.append(di)
-                destructive.remove((di, dt, dn))
+                # `clear()` erases storage AND resets the tree; a bare truncate / delete of the
+                # rows leaves the tree of the refused events in memory and is not a restore
+                if dn == "clear" or resets_tree_after(di):
+                    restorers.append(di)
+                    destructive.remove((di, dt, dn))
+                else:
+                    r.violation("%s|restore-empty:%s" % (key, dn), cfg.loc(body, di),
+                                "on the failed-verification path of an initially empty log the storage is erased with `%s` but the in-memory commit tree is not reset: the log then reports a root and head for events it does not hold" % dn,
+                                work=len(body.blocks))
+                    destructive.remove((di, dt, dn))
         for (di, dt, dn) in destructive:
             start, _at = idioms.success_start(body, di)
             bad = cfg.find_path(body, start, verr, cut_blocks=restorers, cut_edges=infeasible)
